@@ -723,7 +723,8 @@ class Data(Field):
                 endswith = (
                     re.escape(self.until_marker)
                     if isinstance(self.until_marker, bytes) else
-                    self.until_marker.pattern
+                    # as a group: the pattern may be an alternation (a|b)
+                    b"(?:" + self.until_marker.pattern + b")"
                 )
                 if value.regexp is not None and self.include_delimiter:
                     # the value (and the custom regexp that describes it)
